@@ -76,7 +76,7 @@ def d1_validation_on_credit(ctx, idx):
             r.undecided(C + ': raw_check(...)', 'second argument is not the student input', lib.loc(fi, rc))
         pvs = lib.calls_named(fi.node, 'post_eval_validation')
         if not pvs:
-            r.violation(C, 'post_eval_validation is never called: forbidden strings, required functions and the permitted-function '
+            fl.absent(r, idx, C, 'post_eval_validation is never called: forbidden strings, required functions and the permitted-function '
                         'set are not enforced at all', fi.loc)
             return
         # path analysis: keep res_name symbolic
@@ -205,7 +205,7 @@ def d2_post_eval(ctx, idx):
         for vname, (first, rest) in VALIDATORS.items():
             calls = lib.calls_named(fi.node, vname)
             if not calls:
-                r.violation(C + ': ' + vname, 'the validator is no longer called: %s not enforced for any submission' % WHAT[vname],
+                fl.absent(r, idx, C + ': ' + vname, 'the validator is no longer called: %s not enforced for any submission' % WHAT[vname],
                             fi.loc)
                 continue
             call = calls[0]
@@ -349,7 +349,11 @@ def d2_post_eval(ctx, idx):
 def _union_parts(e):
     """Members of a.union(b, c) / a | b | c, else None."""
     if isinstance(e, ast.Call) and isinstance(e.func, ast.Attribute) and e.func.attr == 'union' and not e.keywords:
-        head = _union_parts(e.func.value) or [e.func.value]
+        recv = e.func.value
+        if isinstance(recv, ast.Call) and nf.callee_name(recv) in ('set', 'frozenset') and not recv.args and not recv.keywords:
+            head = []
+        else:
+            head = _union_parts(recv) or [recv]
         out = list(head)
         for a in e.args:
             out.extend(_union_parts(a) or [a])
@@ -390,10 +394,107 @@ def _strip_kind(e, var):
     return None
 
 
+VALIDATOR_CASES = [
+    # (function, args, 'ok' | 'raise', class of the obligation, what a wrong outcome means)
+    ('validate_forbidden_strings_not_used', ('2*sin(x)*cos(x)', ['*y', '+ y'], 'MSG'), 'ok', 'F.accept',
+     'an expression without any forbidden string is refused'),
+    ('validate_forbidden_strings_not_used', ('x', ['+x+x'], 'MSG'), 'ok', 'F.accept',
+     'containment is tested the wrong way round (the expression occurs inside the forbidden string)'),
+    ('validate_forbidden_strings_not_used', ('sin(x+x)', ['+x'], 'MSG'), 'raise', 'F.match', 'a forbidden substring is accepted'),
+    ('validate_forbidden_strings_not_used', ('sin(x + x)', ['+x'], 'MSG'), 'raise', 'F.student',
+     "spaces are not removed from the student's expression: 'x + x' escapes the forbidden string '+x'"),
+    ('validate_forbidden_strings_not_used', ('sin(x+x)', ['+ x'], 'MSG'), 'raise', 'F.forbidden',
+     "spaces are not removed from the forbidden string: the entry '+ x' never matches"),
+    ('validate_forbidden_strings_not_used', ('a*x', ['+x', '*x'], 'MSG'), 'raise', 'F.all', 'only the first forbidden string is tested'),
+    ('validate_forbidden_strings_not_used', (['x', 'x+x'], ['+x'], 'MSG'), 'raise', 'F.all', 'only the first expression of a list is tested'),
+    ('validate_forbidden_strings_not_used', (['x+x', 'y'], ['+x'], 'MSG'), 'raise', 'F.all', 'the first expression of a list is not tested'),
+    ('validate_forbidden_strings_not_used', ({'lower': 'x', 'summand': 'x + x'}, ['+x'], 'MSG'), 'raise', 'F.dict',
+     'the submitted expressions of a structured input (dict values) are not examined'),
+    ('validate_forbidden_strings_not_used', ({'x+x': 'y'}, ['+x'], 'MSG'), 'ok', 'F.dict', 'the KEYS of a structured input are examined'),
+    ('validate_required_functions_used', (['sin', 'cos'], ['cos']), 'ok', 'R.accept', 'a formula that uses the required function is refused'),
+    ('validate_required_functions_used', (set(), []), 'ok', 'R.accept', 'a formula is refused although nothing is required'),
+    ('validate_required_functions_used', (['sin'], ['cos']), 'raise', 'R.refuse', 'a formula that omits the required function is accepted'),
+    ('validate_required_functions_used', ({'sin', 'cos'}, ['sin', 'tan']), 'raise', 'R.refuse', 'only the first required function is enforced'),
+    ('validate_only_permitted_functions_used', ({'f', 'sin'}, {'f', 'g', 'sin'}), 'ok', 'P.accept',
+     'a formula that uses only permitted functions is refused'),
+    ('validate_only_permitted_functions_used', (set(), {'f'}), 'ok', 'P.accept', 'a formula without functions is refused'),
+    ('validate_only_permitted_functions_used', ({'f', 'h'}, {'f', 'g'}), 'raise', 'P.refuse',
+     'a formula that uses a function outside the permitted set is accepted'),
+    ('validate_only_permitted_functions_used', ({'f'}, set()), 'raise', 'P.refuse', 'a function is accepted although nothing is permitted'),
+]
+VALIDATOR_CLASSES = [
+    ('F.accept', 'validate_forbidden_strings_not_used: expressions without a forbidden string pass'),
+    ('F.match', 'validate_forbidden_strings_not_used: a forbidden substring is refused'),
+    ('F.student', "validate_forbidden_strings_not_used: test [student side] spaces ignored"),
+    ('F.forbidden', 'validate_forbidden_strings_not_used: test [forbidden side] spaces ignored'),
+    ('F.all', 'validate_forbidden_strings_not_used: every expression against every forbidden string'),
+    ('F.dict', 'validate_forbidden_strings_not_used: dict input values examined'),
+    ('F.error', 'validate_forbidden_strings_not_used: error class'),
+    ('R.accept', 'validate_required_functions_used: present functions pass'),
+    ('R.refuse', 'validate_required_functions_used: a missing required function is refused'),
+    ('R.error', 'validate_required_functions_used: error class'),
+    ('P.accept', 'validate_only_permitted_functions_used: permitted functions pass'),
+    ('P.refuse', 'validate_only_permitted_functions_used: a function outside the permitted set is refused'),
+    ('P.error', 'validate_only_permitted_functions_used: error class'),
+]
+
+
+def _validators_model(r, idx):
+    """Interpret the three validators on model inputs; False when a body is outside the interpreter's subset."""
+    import copy
+    problems = {k: [] for k, _ in VALIDATOR_CLASSES}
+    classes_seen = {}
+    try:
+        for fname, args, want, cls, meaning in VALIDATOR_CASES:
+            fi = idx.func(HELP + fname)
+            funcs = {n: f.node for n, f in fi.module.funcs.items() if (HELP + n) in idx.unreviewed}
+            env = {'__module__': fi.module, '__funcs__': funcs}
+            env.update(zip(fi.params, copy.deepcopy(args)))
+            try:
+                kind, got, stmt = mev.call(fi.node, env)
+                outcome = ('ok', got)
+            except mev.ModelRaise as e:
+                outcome = ('raise', e.cls)
+            if outcome[0] != want:
+                problems[cls].append('%s%r %s: %s' % (fname, args[:2], 'raises %s' % outcome[1] if outcome[0] == 'raise' else 'passes', meaning))
+            if outcome[0] == 'raise':
+                classes_seen.setdefault(fname, set()).add(outcome[1])
+                if want == 'ok' and outcome[1] in mev.BUILTIN_EXC:
+                    problems[cls][-1] += ' (a %s escapes)' % outcome[1]
+    except mev.Unsupported:
+        return False
+    for fname, key in (('validate_forbidden_strings_not_used', 'F.error'), ('validate_required_functions_used', 'R.error'),
+                       ('validate_only_permitted_functions_used', 'P.error')):
+        fi = idx.func(HELP + fname)
+        bad = [c for c in classes_seen.get(fname, ()) if c != 'InvalidInput' and not (c and lib.exc_is_subclass(idx, fi.module, c, 'StudentFacingError'))]
+        if bad:
+            problems[key].append('refusals raise %s, which is not a student-facing error' % bad)
+    try:
+        fi = idx.func(HELP + 'validate_forbidden_strings_not_used')
+        env = {'__module__': fi.module, '__funcs__': {n: f.node for n, f in fi.module.funcs.items() if (HELP + n) in idx.unreviewed}}
+        env.update(zip(fi.params, ('sin(2*\ttheta)', ['*theta'], 'MSG')))
+        mev.call(fi.node, env)
+        r.note("by-catch: only U+0020 is removed before the forbidden-string test, while the formula parser also skips TAB and "
+               "newline: 'sin(2*<TAB>theta)' is not matched by forbidden string '*theta' yet parses like 'sin(2*theta)' "
+               "(the property speaks of spaces only; reported for triage)")
+    except (mev.ModelRaise, mev.Unsupported):
+        pass
+    for key, construct in VALIDATOR_CLASSES:
+        fi = idx.func(HELP + construct.split(':')[0])
+        if problems[key]:
+            r.violation(construct, problems[key][0] + (' (%d model inputs differ)' % len(problems[key]) if len(problems[key]) > 1 else ''),
+                        fi.loc)
+        else:
+            r.ok(construct, 'holds on all model inputs', fi.loc)
+    return True
+
+
 def d3_validators(ctx, idx):
     r = ctx.rule('D3.NF', 'the three validators refuse exactly: forbidden substring (spaces ignored on both sides), missing '
-                 'required function, used function outside the permitted set', floor=12)
+                 'required function, used function outside the permitted set', floor=13)
     with r:
+        if _validators_model(r, idx):
+            return
         # ---- forbidden strings
         fi = idx.func(HELP + 'validate_forbidden_strings_not_used')
         C = 'validate_forbidden_strings_not_used'
@@ -527,7 +628,7 @@ def d3_validators(ctx, idx):
             if unguarded:
                 r.undecided(C + ': test', 'unconditional raise', lib.loc(fi, unguarded[0]))
             else:
-                r.violation(C + ': test', 'nothing is raised any more: functions outside the permitted set are accepted', fi.loc)
+                fl.absent(r, idx, C + ': test', 'nothing is raised any more: functions outside the permitted set are accepted', fi.loc)
         env = lib.local_env(fi.node)
         for t, x in hits:
             where = lib.loc(fi, t)
@@ -789,7 +890,7 @@ def d4_scrub(ctx, idx):
                                 'evaluated with: instructor variables stay visible to the student' % (short(t.value), vscope),
                                 lib.loc(fi, other_dels[0]), expected='del %s[key]' % vscope)
                 else:
-                    r.violation(name + ': deletion', 'nothing is deleted from the scope `%s` before the student\'s evaluation: the student can '
+                    fl.absent(r, idx, name + ': deletion', 'nothing is deleted from the scope `%s` before the student\'s evaluation: the student can '
                                 'use instructor-only%s variables (e.g. submit the instructor variable that holds the answer)'
                                 % (vscope, ' and sibling' if q == FGC else ''), lib.loc(fi, sc),
                                 expected='for key in var_blacklist: del %s[key]' % vscope)
@@ -826,14 +927,20 @@ def d4_scrub(ctx, idx):
             prov = fl.Prov(fi.node)
             flows = _closure_exprs(prov, bl.id)
             has_instr = any(lib.mentions_config(e, 'instructor_vars') for e in flows)
-            r.check(has_instr, name + ': black-list [instructor_vars]', "built from config['instructor_vars']",
-                    "config['instructor_vars'] no longer flows into the black-list `%s`: instructor-only variables are never removed from "
-                    "the student's scope" % bl.id, lib.loc(fi, dloop))
+            if has_instr:
+                r.ok(name + ': black-list [instructor_vars]', "built from config['instructor_vars']", lib.loc(fi, dloop))
+            else:
+                fl.absent(r, idx, name + ': black-list [instructor_vars]',
+                          "config['instructor_vars'] no longer flows into the black-list `%s`: instructor-only variables are never removed "
+                          "from the student's scope" % bl.id, lib.loc(fi, dloop))
             if q == FGC:
                 has_sib = any(fl.mentions(e, 'sibling_formulas') for e in flows)
-                r.check(has_sib, name + ': black-list [siblings]', 'contains the sibling variable names',
-                        'the sibling variable names no longer flow into the black-list `%s`: a student can refer to sibling_N, i.e. to '
-                        'another input box, in this answer' % bl.id, lib.loc(fi, dloop))
+                if has_sib:
+                    r.ok(name + ': black-list [siblings]', 'contains the sibling variable names', lib.loc(fi, dloop))
+                else:
+                    fl.absent(r, idx, name + ': black-list [siblings]',
+                              'the sibling variable names no longer flow into the black-list `%s`: a student can refer to sibling_N, i.e. '
+                              'to another input box, in this answer' % bl.id, lib.loc(fi, dloop))
             _blacklist_model(r, fi, name, q == FGC, bl.id, loop, prov, lib.loc(fi, dloop))
             # the black-list is complete before the sampling loop starts
             fills = [n for n in walk_own(fi.node) if isinstance(n, (ast.Call, ast.AugAssign, ast.Assign)) and (
@@ -885,14 +992,14 @@ def d4_scrub(ctx, idx):
 
 # ----------------------------------------------------------------------------- D5
 def d5_scope(ctx, idx):
-    r = ctx.rule('D5.SCOPE', 'every evaluation first checks the parse-time name sets against the given scope', floor=23)
+    r = ctx.rule('D5.SCOPE', 'every evaluation first checks the parse-time name sets against the given scope', floor=22)
     with r:
         fi = idx.func(ME + '.eval')
         C = 'MathExpression.eval'
         ens = lib.one_call(fi, 'eval_node')
         cs = [c for c in lib.calls_named(fi.node, 'check_scope')]
         if not cs:
-            r.violation(C + ': check_scope', 'check_scope is no longer called: an undefined or scrubbed name is only noticed if its value '
+            fl.absent(r, idx, C + ': check_scope', 'check_scope is no longer called: an undefined or scrubbed name is only noticed if its value '
                         'is actually needed, and student-facing UndefinedVariable/UndefinedFunction errors are lost', fi.loc)
         else:
             c = cs[0]
@@ -960,12 +1067,12 @@ def d5_scope(ctx, idx):
                 if mentioned:
                     r.undecided(C + ': ' + pn, 'the test on self.%s is not recognised' % attr, f.loc)
                 else:
-                    r.violation(C + ': ' + pn, 'self.%s is no longer compared with the scope: an unknown %s is not rejected up front '
+                    fl.absent(r, idx, C + ': ' + pn, 'self.%s is no longer compared with the scope: an unknown %s is not rejected up front '
                                 '(a term such as 0*z or z^0 may evaluate without ever looking z up)' % (attr, pn[:-1]), f.loc)
                 continue
             t, x, verdict = found[pn]
             if verdict is True and x is None:
-                r.violation(C + ': ' + pn, 'unknown %s are detected (`%s`) but nothing is raised for them: the name is only noticed if its '
+                fl.absent(r, idx, C + ': ' + pn, 'unknown %s are detected (`%s`) but nothing is raised for them: the name is only noticed if its '
                             'value is actually looked up' % (pn, short(t.test)), lib.loc(f, t),
                             expected='raise %s' % '/'.join(sorted(classes)))
                 continue
@@ -1030,19 +1137,26 @@ def d5_scope(ctx, idx):
         for q, meth, nested in ((SGB, 'get_limits_and_funcs', None), (IGC, 'evaluate_int', 'raw_integrand'), (SGC, 'evaluate_sum', 'eval_summand')):
             f2 = idx.func('%s.%s' % (q, meth))
             holder = idx.func('%s.%s.<locals>.%s' % (q, meth, nested)) if nested else f2
-            for c in lib.calls_named(holder.node, 'evaluator'):
+            ecalls = lib.calls_named(holder.node, 'evaluator')
+            construct = '%s.%s%s: evaluator(...)' % (q.split('.')[-1], meth, ('.' + nested) if nested else '')
+            if not ecalls:
+                r.undecided(construct, 'no evaluator call found', holder.loc)
+            all_ok = True
+            for c in ecalls:
                 av, af = _arg_for(ev, c, 'variables'), _arg_for(ev, c, 'functions')
                 ok = fl.name_of(av) == 'varscope' and fl.name_of(af) == 'funcscope'
-                construct = '%s.%s%s: evaluator(...)' % (q.split('.')[-1], meth, ('.' + nested) if nested else '')
                 if ok:
-                    r.ok(construct, 'variables=varscope, functions=funcscope', lib.loc(holder, c))
-                elif av is None or af is None:
+                    continue
+                all_ok = False
+                if av is None or af is None:
                     r.violation(construct, 'the scope is not forwarded (%s): the expression is evaluated with the default tables, so deleted '
                                 'instructor variables do not matter' % short(c), lib.loc(holder, c))
                 elif fl.name_of(av) == 'funcscope' and fl.name_of(af) == 'varscope':
                     r.violation(construct, 'variables and functions scopes are swapped', lib.loc(holder, c))
                 else:
                     r.undecided(construct, 'scope arguments not recognised: %s' % short(c), lib.loc(holder, c))
+            if ecalls and all_ok:
+                r.ok(construct, '%d call(s) with variables=varscope, functions=funcscope' % len(ecalls), lib.loc(holder, ecalls[0]))
 
 
 # ------------------------------------------------------------------------ self-test
@@ -1162,6 +1276,10 @@ BENIGN = [
     Benign('blacklist-two-comprehensions', FG, _FG_BL,
            "        var_blacklist = [var for var in self.config['instructor_vars']\n                         if var in var_samples[0]]\n"
            "        var_blacklist += [key for key in sibling_formulas\n                          if key not in var_blacklist]\n"),
+    Benign('forbidden-any-helper', MH, "        stripped_expr = expression.replace(' ', '')\n        for forbidden in forbidden_strings:\n            check_for = forbidden.replace(' ', '')\n            if check_for in stripped_expr:\n                # Don't give away the specific string that is being checked for!\n                raise InvalidInput(forbidden_msg)\n    return True\n",
+           "        if _contains_any_ignoring_spaces(expression, forbidden_strings):\n            raise InvalidInput(forbidden_msg)\n    return True\n\ndef _contains_any_ignoring_spaces(text, substrings):\n    stripped_text = text.replace(' ', '')\n    return any(substring.replace(' ', '') in stripped_text for substring in substrings)\n"),
+    Benign('limits-in-one-comprehension', IG, "        lower, lower_used = evaluator(lower_str,\n                                      variables=varscope,\n                                      functions=funcscope,\n                                      suffixes=self.suffixes,\n                                      allow_inf=True)\n        upper, upper_used = evaluator(upper_str,\n                                      variables=varscope,\n                                      functions=funcscope,\n                                      suffixes=self.suffixes,\n                                      allow_inf=True)\n        expression_used = parse(expression)\n        \n        used_funcs = lower_used.functions_used.union(upper_used.functions_used, expression_used.functions_used)\n",
+           "        (lower, lower_used), (upper, upper_used) = [evaluator(limit_str, variables=varscope, functions=funcscope, suffixes=self.suffixes, allow_inf=True) for limit_str in (lower_str, upper_str)]\n        used_funcs = set().union(lower_used.functions_used, upper_used.functions_used, parse(expression).functions_used)\n"),
     Benign('check-scope-keywords', EXPR, "        self.check_scope(variables, functions, suffixes)\n\n        # metadata_dict",
            "        self.check_scope(functions=functions, variables=variables, suffixes=suffixes)\n\n        # metadata_dict"),
 ]
